@@ -32,6 +32,11 @@ def run(ctx):
             owner = "|".join(sorted({v.split("::")[-2] for v in vs}))
             key = "%s[%s::Number]" % (pn.replace("blots_core::", ""), owner)
             c16.classify_number_to_text(core, arm["body"], var, lambda k, ok, d, loc: ctx.inst("C05.L10", k, ok, d, loc), key, None)
+    # the names that always resolve (inf, infinity, constants) are exactly the names the capture analysis / portability check skips:
+    # the printer emits a captured infinity as `inf`, which must not count as an unbound variable when the function is reloaded
+    from rules import c04
+    ctx.rule("C05.R9", "the names the evaluator resolves before the environment lookup are exactly the names collect_free_variables (and with it validate_portable_value) skips", floor=3)
+    c04.special_names(ctx, "C05.R9", core)
     P.R7_validate_then_emit(ctx, "C05.R7", cli)
     P.R8_binders(ctx, "C05.R8", core)
     # L8: the reserved function-object key
